@@ -52,6 +52,8 @@ def handle(name, impl, strategy, migrate="recreate"):
 OPS = {
     "cached-absent": ("mon", None, [], cached("L")),
     "cached-keep": ("mon", 'v = "1"', [], cached("L")),
+    "cached-toml-only": ("mon", "toml-only", [], cached("L")),
+    "uncached-toml-only": ("mon", "toml-only", [], {"op": "uncached", "name": "L", "build": True, "launch": False}),
     "cached-delete": ("mon", 'v = "1"', [], cached("L", restored="delete")),
     "cached-replace-metadata": ("mon", 'other = "x"', [], cached("L", mtype="typed", invalid="replace")),
     "uncached-over-existing": ("mon", 'v = "1"', [], {"op": "uncached", "name": "L", "build": True, "launch": False}),
@@ -68,7 +70,7 @@ OPS = {
     "build-full": ("bp", None, [], "build"),
     "build-with-store": ("bp", "store", [], "build"),
 }
-QUICK_OPS = ["cached-absent", "cached-keep", "cached-delete", "uncached-over-existing", "write-metadata", "write-env", "write-sboms", "write-exec-d", "trait-create", "trait-keep",
+QUICK_OPS = ["cached-absent", "cached-toml-only", "uncached-toml-only", "cached-keep", "cached-delete", "uncached-over-existing", "write-metadata", "write-env", "write-sboms", "write-exec-d", "trait-create", "trait-keep",
              "trait-update", "trait-recreate", "trait-migrate-replace", "detect-plan", "build-full", "build-with-store", "cached-replace-metadata"]
 
 BP_SCRIPT = {"detect": {"result": "plan", "plan": [["provides", "x"], ["requires", "x", tomlw.tagged({"k": "v"})], ["or"], ["provides", "y"]]},
@@ -125,12 +127,22 @@ def prepare(root, opname):
             with open(os.path.join(src, p), "wb") as f:
                 f.write(b"#!/bin/sh\necho " + p.encode() + b"\n")
             os.chmod(os.path.join(src, p), 0o755)      # exec.d programs are executables: the copy must be one too
-        if existing:
+        if existing == "toml-only":
+            # what a launch-only layer looks like after the restore: its toml (and here an SBOM file), no directory
+            with open(os.path.join(layers, "L.toml"), "w") as f:
+                f.write('[metadata]\nv = "1"\n')
+            with open(os.path.join(layers, "L.sbom.cdx.json"), "w") as f:
+                f.write('{"old":"cdx"}')
+        elif existing:
             mk_existing(layers, "L", existing)
         # a bystander layer that must never change
         mk_existing(layers, "other", 'v = "other"')
-        if variant == "linked" and existing:
+        if variant == "linked" and existing and existing != "toml-only":
             link_away(w, os.path.join(layers, "L.toml"), "hard" if len(opname) % 2 else "sym")
+            # ... and one of the layer's SBOM files is a dangling symbolic link (it "does not exist" for anyone who follows links)
+            sp = os.path.join(layers, "L.sbom.spdx.json")
+            os.unlink(sp)
+            os.symlink("/nonexistent-vp/sbom.json", sp)
         return None
     lay = phase.Layout(w)
     lay.script = os.path.join(root, "script.json")      # the harness' own files stay outside the watched prefix
